@@ -5,6 +5,7 @@
 (*  {"k":"Dec","src","cls","boc":hex,"go":R,"go2":R,"conv":R[,"vec","want"]}     *)
 (*      go   = tep64.DecodeFullContentFromCell(root of the bag)                   *)
 (*      go2  = tlb.Unmarshal into tlb.FullContent, then tep64.DecodeFullContent   *)
+(*      go3  = a second tep64.DecodeFullContent on the same tlb.FullContent value *)
 (*      conv = tep64.ConvertOnchainData of the same tlb.FullContent (ran = FALSE  *)
 (*             when tlb.Unmarshal refused or the content is not on-chain)         *)
 (*      R = [ran, ok, err, panic, layout, url, has_meta, fields, img_nil, data,   *)
@@ -12,6 +13,11 @@
 (*    The bag is parsed with Boc!Parse, the expected result is recomputed from    *)
 (*    the CELLS with Tep64!Verdict -- never from the harness's label -- and the   *)
 (*    three recorded results must match it.                                       *)
+(*    "in" (contents handed to the library's own encoder, tlb.Marshal): the cells    *)
+(*    must be a conforming encoding of exactly that content.                       *)
+(*  {"k":"Text","src","boc":hex,"in":hex|"-","go":[ok,err,panic,val]}              *)
+(*      tlb.Text (text#_ data:(SnakeData ~n)) read from the root of the bag; "in"  *)
+(*      = the string handed to tlb.Marshal when the library wrote the cells.       *)
 (*  {"k":"Merge","a":M,"b_nil":bool,"b":M,"r":M,"b_after":M,"panic":""}           *)
 (*      M = [f |-> attribute -> hex, img_nil]; judged with Tep64!MergeAllowed.    *)
 (* NOTE lines carry the derived verdict and the shape of the content for the     *)
@@ -28,12 +34,37 @@ JudgeDec(e) ==
   IF ~pr.ok \/ Len(pr.roots) # 1 THEN PrintT(<<"NOTE", l, "domain:bag", "none", 0, 0, 0, 0, 0>>) /\ FALSE
   ELSE LET V  == Verdict(pr.T, pr.roots[1])
            sh == V.d.shapes
+           Exp == [layout |-> V.d.layout, url |-> BytesToHex(V.d.url), fields |-> [a \in AttrSet |-> BytesToHex(V.d.fields[a])], shapes |-> V.d.ashape,
+                   pad |-> "................................................................................"]
        IN /\ PrintT(<<"NOTE", l, V.v, V.d.layout, V.d.nknown, V.d.nunknown, Count(sh, "snake1"), Count(sh, "snakeN"), Count(sh, "chunks")>>)
+          \* for the runner's report of a rejected line: what the specification reads from the cells
+          /\ (Matches(e.go, V) /\ Matches(e.go2, V) /\ (e.go3.ran => Matches(e.go3, V)) /\ (e.conv.ran => ConvMatches(e.conv, V)))
+               \/ PrintT(<<"EXP", l, ToJson(Exp)>>)
           /\ Matches(e.go, V)
           /\ Matches(e.go2, V)
+          /\ e.go3.ran => Matches(e.go3, V)
           /\ e.conv.ran => ConvMatches(e.conv, V)
           \* a readable on-chain dictionary always reaches ConvertOnchainData
           /\ (V.v = "ok" /\ V.d.layout # "offchain") => e.conv.ran
+          \* the library's encoder wrote what it was given, in a conforming way
+          /\ "in" \in DOMAIN e =>
+                /\ V.v = "ok" /\ V.d.layout = e.in.layout /\ BytesToHex(V.d.url) = e.in.url
+                /\ \A a \in AttrSet : BytesToHex(V.d.fields[a]) = e.in.fields[a]
+
+JudgeText(e) ==
+  LET pr == Parse(HexToBytes(e.boc)) IN
+  IF ~pr.ok \/ Len(pr.roots) # 1 THEN PrintT(<<"NOTE", l, "domain:bag", "none", 0, 0, 0, 0, 0>>) /\ FALSE
+  ELSE LET exo   == HasExotic(pr.T, pr.roots[1])
+           s     == SnakeBits(pr.T, pr.roots[1], 0)
+           whole == Len(s.bits) % 8 = 0
+           bytes == IF whole THEN BitsToBytes(s.bits) ELSE <<>>
+           \* a text is a string: bytes that are not ASCII may be refused (the documents do not fix the charset check)
+           vd    == IF exo THEN "any" ELSE IF ~whole THEN "err" ELSE IF s.strict /\ Ascii(bytes) THEN "ok" ELSE "free"
+           dec   == e.go.ok /\ e.go.err = "" /\ HexToBytes(e.go.val) = bytes
+       IN /\ PrintT(<<"NOTE", l, vd, "text", s.cells, 0, 0, 0, 0>>)
+          /\ e.go.panic = ""
+          /\ CASE vd = "ok" -> dec [] vd = "err" -> Refused(e.go) [] vd = "free" -> dec \/ Refused(e.go) [] OTHER -> TRUE
+          /\ e.in # "-" => (~exo /\ whole /\ s.strict /\ bytes = HexToBytes(e.in))
 
 MetaOf(m) == [f |-> [a \in AttrSet |-> HexToBytes(m.f[a])], img_nil |-> m.img_nil]
 JudgeMerge(e) ==
@@ -46,6 +77,7 @@ JudgeMerge(e) ==
 
 Judge(e) == CASE e.k = "Dec"   -> JudgeDec(e)
               [] e.k = "Merge" -> JudgeMerge(e)
+              [] e.k = "Text"  -> JudgeText(e)
               [] OTHER -> FALSE          \* Panic, Crash, unknown kinds: no action
 
 Init == l \in 1..N /\ v = "todo"
